@@ -363,6 +363,11 @@ for s in strings:
                 if got != want:
                     fail(f"parserfns:{name}_fn#equals-spec", f"{name} {s!r},{o},{pad!r} -> {got!r} want {want!r}",
                          {"s": s, "count": o, "pad": pad})
+        for lim in (1, 2, 3):
+            got = pf("#explode", s, "/", str(o), str(lim))
+            if got != ref_explode(t, "/", o, lim):
+                fail("parserfns:explode_fn#equals-spec", f"#explode {s!r},'/',{o},{lim} -> {got!r} want {ref_explode(t, '/', o, lim)!r}",
+                     {"s": s, "pos": o, "limit": lim})
         got = pf("#explode", s, "/", str(o))
         if got != ref_explode(t, "/", o):
             fail("parserfns:explode_fn#equals-spec", f"#explode {s!r},'/',{o} -> {got!r} want {ref_explode(t, '/', o)!r}",
